@@ -152,6 +152,8 @@ func init() {
 	registerPlanCheck("C33", "exploration", planRule("all"), 50*time.Second, 12*time.Minute, realStub)
 	registerPlanCheck("C34", "translation_validation", planRule("all"), 50*time.Second, 12*time.Minute, realStub)
 	registerPlanCheck("C31", "exploration", planRule("all"), 50*time.Second, 12*time.Minute, realStub)
+	registerPlanCheck("C26", "exploration", planRule("contract lifecycle"), 50*time.Second, 12*time.Minute, realStub)
+	checks["C26"].Worker = c26Worker
 	for _, p := range []string{"C33", "C31", "C34", "C01"} {
 		checks[p].VaryCPUs = true
 	}
